@@ -22,7 +22,10 @@
 #include <kernel/assembly/symbolic_assembler.hpp>
 using namespace FEAT;
 
-typedef double DT;
+#ifndef C16_DT
+#define C16_DT double
+#endif
+typedef C16_DT DT;
 typedef Index IT;
 
 template<int dim_> struct Types
